@@ -147,6 +147,14 @@ def model : List String → String
     | some cn, some (e, _), some p, some env =>
       s!"{sRefresh (refresh cn.toList e p env)} certgen={sCertgen (ipAuth cn.toList e p env)}"
     | _, _, _, _ => "bad-op"
+  -- auth <chain length> <cn> <ext> <peer> <env> : checkAuth(…, AuthTypeAny), TLS branch
+  | ["auth", n, cn, e, p, env] =>
+    match pNat n, unhex cn, pExt e, pPeer p, pEnv env with
+    | some n, some cn, some (e, _), some p, some env =>
+      match authAny n cn.toList e p env with
+      | .user u => s!"user {hex (String.ofList u)}"
+      | .forbidden => "none" | .serverError => "none" | .crashed => "PANIC"
+    | _, _, _, _, _ => "bad-op"
   | ["refm", cn, ns, p, env] =>
     match unhex cn, pList pNet "," ns, pPeer p, pEnv env with
     | some cn, some ns, some p, some env =>
@@ -223,6 +231,24 @@ def judge : List String → String
       else if st == "200" && nn != sList sBlock "," bs then "viol refreshed-netblocks-differ"
       else if st != "200" && inside && good then "viol refresh-refused-inside"
       else if st != "200" && !(st.startsWith "4" || st.startsWith "5") then "viol unexpected-status"
+      else "ok"
+    | _, _, _ => "bad-op"
+  -- jauth <ext as asn1 parsed it, present> <peer> <env> <cn> <user checkAuth named | none | PANIC> <status of an issuing handler>
+  -- (`c11_restricted_never_plain`: a certificate carrying the extension authenticates only from inside a
+  -- well-formed IPv4 block of it, in good standing, under its own CN)
+  | ["jauth", e, p, env, cn, user, st] =>
+    match pExt e, pPeer p, pEnv env with
+    | some (e, _), some p, some env =>
+      let inside := match e with
+        | .parsed fs => p != .noPort && allowedBy fs p
+        | _ => false
+      let good := !env.denied && env.automation && !env.revoked
+      if user == "PANIC" || st == "PANIC" then "viol panic"
+      else if e == .absent then "bad-op"
+      else if user != "none" && !inside then "viol authenticated-without-a-wellformed-block-containing-the-peer"
+      else if user != "none" && !good then "viol authenticated-despite-denied-or-foreign-identity"
+      else if user != "none" && user != cn then "viol authenticated-under-another-name"
+      else if st == "200" && !(inside && good) then "viol certificate-issued-on-a-malformed-or-foreign-extension"
       else "ok"
     | _, _, _ => "bad-op"
   -- juse <nets of the ORIGINAL certificate> <peer> <env> <status> : a refreshed certificate presented from <peer>
